@@ -50,6 +50,7 @@ type scheduler struct {
 	now         int64
 	timerSeq    int
 	steps       int
+	crashPending bool
 }
 
 func (r *runState) scheduler() *scheduler {
@@ -89,6 +90,14 @@ func (s *scheduler) spawn(i *interpreter, name string, fn func(root *frame)) *go
 			g.state = gDone
 			if p != nil {
 				if _, ok := p.(goroutineKill); ok {
+					return
+				}
+				if _, ok := p.(crashNow); ok {
+					// simulated process death raised on this goroutine: deliver it to main
+					s.crashPending = true
+					main := s.gs[0]
+					s.cur = main
+					main.wake <- struct{}{}
 					return
 				}
 				var pe pathEnd
@@ -243,6 +252,10 @@ func (s *scheduler) transfer(g, next *gor) {
 		pe := *s.abort
 		panic(pe)
 	}
+	if g.id == 0 && s.crashPending {
+		s.crashPending = false
+		panic(crashNow{})
+	}
 }
 
 // block suspends g until ready() holds.
@@ -302,8 +315,14 @@ func (s *scheduler) yieldPoint(g *gor, what string) {
 }
 
 // killAll terminates every goroutine other than main at the end of a path.
-func (s *scheduler) killAll() {
-	for _, g := range s.gs[1:] {
+func (s *scheduler) killAll() { s.killFrom(1) }
+
+// killFrom terminates the goroutines with index >= from (all goroutines of a crashed process).
+func (s *scheduler) killFrom(from int) {
+	if from >= len(s.gs) {
+		return
+	}
+	for _, g := range s.gs[from:] {
 		if g.state == gDone {
 			continue
 		}
@@ -313,6 +332,11 @@ func (s *scheduler) killAll() {
 		default:
 		}
 		<-g.exited
+		g.state = gDone
+	}
+	// pending timers of the dead process never fire
+	for _, t := range s.timers {
+		t.dead = true
 	}
 }
 
